@@ -10,6 +10,16 @@ model of `/repo/streams` after the `fix:` commits; the `…_witness` theorems sh
 -/
 namespace Kit.Streams
 
+/-! ## T1: the source still is the version the theorems are about -/
+
+/-- The facts re-extracted from `/repo/streams` by `factgen_c16` on this run (guard of the
+too-large error, guard of the buffer clip, `WriteTo` closing what it copied) are those of
+`Version.fixed`.  Reverting any of the three repairs makes this fail to check. -/
+theorem source_is_fixed : sourceVersion = some .fixed := by decide
+
+/-- `WriteTo`'s buffer is non-empty (used by the copy-loop termination argument). -/
+theorem copy_buffer_nonempty : 0 < copyBufSize := by decide
+
 /-! ## LimitReadCloser -/
 
 /-- A source of at most `N` bytes passes through unchanged — bytes and terminal (EOF or the
